@@ -189,12 +189,72 @@ pub fn run(ctx: &mut Ctx) {
         let mut rng = ctx.rng(case);
         digest_document(ctx, case, &mut rng, &mut digests);
     }
+    let n_hist = ctx.n(100, 3000);
+    for case in ctx.cases(n_comp + n_doc + n_hist) {
+        if case < n_comp + n_doc {
+            continue;
+        }
+        if ctx.out_of_budget() {
+            ctx.count("budget-stop");
+            break;
+        }
+        ctx.begin(case);
+        digest_history(ctx, case, &mut digests);
+    }
     for d in &digests {
         ctx.shape_str(d[0].as_str().unwrap_or(""));
     }
     ctx.note("list:digests", json!([{"replica": ctx.shard, "digests": digests}]));
 }
 
+
+/// A history with removals: a base definition with several dependants is removed (the dependants go
+/// with it), then new independent definitions are added and the graph is encoded. Freed node slots
+/// are reused, so any hash-ordered step of the removal shows in the order of the output.
+fn history_bytes(seed: u64) -> Result<Vec<u8>, String> {
+    let mut rng = Rng::new(seed);
+    let mut g = CompositionGraph::new();
+    let v = |id| Type::Value(ValueType::Defined(id));
+    let en = |g: &mut CompositionGraph, tag: &str| g.types_mut().add_defined_type(DefinedType::Enum(Enum([tag.to_string(), "z".to_string()].into_iter().collect())));
+    if rng.chance(1, 2) {
+        let k = en(&mut g, "keep");
+        g.define_type("keep", v(k)).map_err(|e| e.to_string())?;
+    }
+    let base = en(&mut g, "base");
+    let base_node = g.define_type("base", v(base)).map_err(|e| e.to_string())?;
+    for i in 0..rng.range(2, 7) {
+        let d = match rng.below(3) {
+            0 => DefinedType::List(ValueType::Defined(base)),
+            1 => DefinedType::Option(ValueType::Defined(base)),
+            _ => DefinedType::Tuple(vec![ValueType::Defined(base), ValueType::Primitive(PrimitiveType::U8)]),
+        };
+        let id = g.types_mut().add_defined_type(d);
+        g.define_type(format!("d{i}"), v(id)).map_err(|e| e.to_string())?;
+    }
+    g.remove_node(base_node);
+    for i in 0..rng.range(2, 8) {
+        let id = en(&mut g, &format!("n{i}"));
+        g.define_type(format!("n{i}"), v(id)).map_err(|e| e.to_string())?;
+    }
+    g.encode(wac_graph::EncodeOptions { define_components: true, validate: false, processor: None }).map_err(|e| format!("{e:#}"))
+}
+
+fn digest_history(ctx: &mut Ctx, case: u64, digests: &mut Vec<Value>) {
+    let seed = crate::util::mix(crate::util::mix(ctx.seed, 0xC16), case);
+    ctx.eval();
+    let runs: Vec<String> = (0..3)
+        .map(|_| match catch(|| history_bytes(seed)) {
+            Ok(Ok(b)) => format!("ok:{}", sha256_hex(&b)),
+            Ok(Err(e)) => format!("err:{}", sha256_hex(e.as_bytes())),
+            Err(p) => format!("panic:{}", p.message),
+        })
+        .collect();
+    if runs.iter().any(|r| *r != runs[0]) {
+        ctx.violation(case, "C16:history-with-removals-differs-in-process", format!("the same history replayed three times in one process: {runs:?}"), json!({"history_seed": seed}));
+    }
+    ctx.count(&format!("history-with-removals:{}", runs[0].split(':').next().unwrap()));
+    digests.push(json!([format!("history:{case}"), runs[0]]));
+}
 
 pub fn debug_composition(rng: &mut Rng) {
     let lo = lib_opts_for(rng);
